@@ -186,7 +186,7 @@ func (w *Worker) specEval(f *Frame, ms *mergeState, b, pred *ssa.BasicBlock) []V
 		case *ssa.Jump:
 			return w.specEval(f, ms, b.Succs[0], b)
 		case *ssa.If:
-			c := w.get(f, x.Cond).(*Term)
+			c := w.simp(w.get(f, x.Cond).(*Term))
 			if c.IsTrue() {
 				return w.specEval(f, ms, b.Succs[0], b)
 			}
